@@ -352,6 +352,7 @@ func TestVerifC16(t *testing.T) {
 		os.Remove(path)
 	}
 	vSameIdAdds(t, r, e)
+	vEvictionSameScan(t, r, e)
 	vConcurrent(t, r, e)
 	r.Write()
 }
@@ -365,6 +366,71 @@ func TestVerifC16(t *testing.T) {
 // request before the due time, a recurring job not more often than its
 // occurrences, Get after Delete is NotFound, and at quiescent points (loop
 // parked) the two buckets agree key for key.
+// vEvictionSameScan: a one-shot job comes due in the same scan of its partition as the eviction of an
+// older one-shot job (which fired one TTL earlier), sorting before it in the time index.  Polled
+// three times in a row, the job fires once.
+func vEvictionSameScan(t *testing.T, r *Report, e Env) {
+	var mu sync.Mutex
+	hits := map[string]int{}
+	srv := httptest.NewServer(http.HandlerFunc(func(w http.ResponseWriter, req *http.Request) {
+		mu.Lock()
+		hits[req.URL.Path]++
+		mu.Unlock()
+		fmt.Fprintln(w, "ok")
+	}))
+	defer srv.Close()
+	for round := 0; round < e.Pick(1, 4); round++ {
+		path := filepath.Join(e.Out, fmt.Sprintf("crolt-evict-%d-%d.db", e.Batch, round))
+		os.Remove(path)
+		db, err := bolt.Open(path, 0600, &bolt.Options{Timeout: 5 * time.Second})
+		if err != nil {
+			t.Fatal(err)
+		}
+		c, err := NewCron(db, 1, 0, 1200*time.Millisecond)
+		if err != nil {
+			t.Fatal(err)
+		}
+		add := func(id, sched string) {
+			j, jerr := NewJob("acct", id, sched)
+			if jerr != nil {
+				t.Fatal(jerr)
+			}
+			j.URL = srv.URL + fmt.Sprintf("/evict-%d-%d-%s", e.Batch, round, id)
+			if aerr := c.Add(j); aerr != nil {
+				r.Violate("", "Add failed: "+aerr.Error(), J{"phase": "eviction-same-scan", "id": id})
+			}
+		}
+		poll := func() {
+			if err := c.DB.Update(c.work("0")); err != nil {
+				r.Violate("", "work() failed: "+err.Error(), J{"phase": "eviction-same-scan"})
+			}
+		}
+		n := func(id string) int {
+			mu.Lock()
+			defer mu.Unlock()
+			return hits[fmt.Sprintf("/evict-%d-%d-%s", e.Batch, round, id)]
+		}
+		start := time.Now()
+		add("old", "1ms")
+		time.Sleep(20 * time.Millisecond)
+		poll() // old fires; its eviction is due one TTL later (start+1.22s)
+		add("once", "1s")
+		time.Sleep(start.Add(1500 * time.Millisecond).Sub(time.Now()))
+		poll()
+		p1 := vConsistent(c)
+		poll()
+		poll()
+		p3 := vConsistent(c)
+		r.Case(true, fmt.Sprint("eviction-same-scan", e.Batch, round))
+		r.Count("crolt_eviction_same_scan_rounds", 1)
+		if n("old") != 1 || n("once") != 1 || len(p1) > 0 || len(p3) > 0 {
+			r.Violate("", fmt.Sprintf("a one-shot job due in the same scan as an older job's eviction fired %d times in three polls (the older one %d times)", n("once"), n("old")), J{"phase": "eviction-same-scan", "problems_after_first_poll": p1, "problems_after_third_poll": p3})
+		}
+		db.Close()
+		os.Remove(path)
+	}
+}
+
 // vSameIdAdds: several clients add a job under one (account, id) at the same time.  The service
 // refuses a job that exists, so exactly one Add is accepted, and the job has one entry in the
 // time index (removing it then leaves nothing behind).
